@@ -89,7 +89,7 @@ INST_RICH = {"__cls__": "Root", "fields": {
     "ne": [{"__cls__": "NilC", "fields": {"w": {"__p__": "str", "v": "x"}, "a": {"__p__": "int", "v": 3}}}],
     "av": {"__p__": "str", "v": " any  text "}, "aw": {"__p__": "str", "v": ""},
     "am": {"__map__": {"zz": "v 1", "{urn:z}y": "a b", "aa": ""}},
-    "wl": [{"__any__": {"qname": "{urn:other}w", "text": " some  text ", "tail": None, "attributes": {}, "children": []}},
+    "wl": [{"__any__": {"qname": "{urn:other}w", "text": " some  text ", "tail": None, "attributes": {"z": "1"}, "children": []}},
            {"__any__": {"qname": "{urn:other}deep", "text": "", "tail": None, "attributes": {"b": "2", "{urn:x}a": "1"},
                         "children": [{"__any__": {"qname": "k", "text": "", "tail": None, "attributes": {}, "children": []}},
                                      {"__any__": {"qname": "{urn:y}k", "text": "t", "tail": None, "attributes": {"a": "v"},
@@ -603,6 +603,24 @@ def add_subclass(r, m, insts):
         insts[i] = new
 
 
+def pad_any_text(r, v):
+    """generic elements without children keep their text as it is: give some of them surrounding white space
+    (genmodels only writes trimmed texts there)"""
+    if isinstance(v, list):
+        for x in v:
+            pad_any_text(r, x)
+    elif isinstance(v, dict):
+        if "__any__" in v:
+            a = v["__any__"]
+            if not a["children"] and a["text"] and r.random() < 0.35:
+                a["text"] = r.choice([" ", "  ", "\n "]) + a["text"] + r.choice([" ", "\t"])
+            for ch in a["children"]:
+                pad_any_text(r, ch)
+        elif "fields" in v:
+            for x in v["fields"].values():
+                pad_any_text(r, x)
+
+
 def span_members(fields):
     """names of the element fields next_value renders through the rolling loop: everything from a field with a
     `sequence` number to the last field with the same number"""
@@ -824,6 +842,8 @@ def run(ck: Check):
         insts = [G.gen_instance(r, m, m["root"]) for _ in range(4)]
         add_recursion(r, m, insts)
         add_subclass(r, m, insts)
+        for inst in insts:
+            pad_any_text(r, inst)
         cases = []
         for i in range(len(insts)):
             for _ in range(3):
